@@ -1120,6 +1120,12 @@ class Optimizer(object):
                         np.argsort(values)[: self.n_restarts_optimizer]
                     ]
 
+                    # the gradient is approximated when it is not available from the
+                    # surrogate model or not implemented for the acquisition function
+                    with_grad = has_gradients(self.base_estimator_) and not (
+                        cand_acq_func.startswith("MES")
+                    )
+
                     with warnings.catch_warnings():
                         warnings.simplefilter("ignore")
                         results = Parallel(n_jobs=self.n_jobs)(
@@ -1131,13 +1137,11 @@ class Optimizer(object):
                                     np.min(yi),
                                     cand_acq_func,
                                     self.acq_func_kwargs,
-                                    has_gradients(self.base_estimator_),
+                                    with_grad,
                                     self.rng,
                                 ),
                                 bounds=transformed_bounds,
-                                # TODO: Use approximated gradient when not available
-                                # approx_grad=False,
-                                approx_grad=not (has_gradients(self.base_estimator_)),
+                                approx_grad=not with_grad,
                                 maxiter=20,
                             )
                             for x in x0
